@@ -34,13 +34,13 @@ Step(tr, s, ev) ==
   ELSE IF ev.e = "take" THEN
        IF tr.mode = "serial" \/ c.phase # "idle" \/ ev.t \in s.claimed \/ (\E d \in 1..(ev.t - 1) : d \notin s.claimed)
           \/ ev.t > NChunks(tr)
-       THEN <<s, "C16:event-not-allowed-by-the-pool-model">>
+       THEN <<s, "X00:event-not-allowed-by-the-pool-model">>
        ELSE <<[s EXCEPT !.claimed = @ \cup {ev.t}, !.cur[w] = [phase |-> "check", chunk |-> ev.t, pos |-> 1]], "">>
   ELSE IF ev.e = "check" THEN
        LET expected == IF tr.mode = "serial" THEN Cardinality(s.consulted) + 1
                        ELSE IF c.phase = "check" THEN ChunkTasks(tr, c.chunk)[c.pos] ELSE 0 IN
        IF ev.t \in s.consulted THEN <<s, "C20:callback-consulted-twice-for-one-sub-cube">>
-       ELSE IF ev.t # expected THEN <<s, "C16:event-not-allowed-by-the-pool-model">>
+       ELSE IF ev.t # expected THEN <<s, "X00:event-not-allowed-by-the-pool-model">>
        ELSE IF ev.raised # (ev.t \in SeqSet(tr.faults)) THEN <<s, "C20:callback-outcome-differs-from-the-injected-fault">>
        ELSE IF ev.raised
             THEN <<[s EXCEPT !.consulted = @ \cup {ev.t}, !.failed = Append(@, ev.t),
@@ -54,25 +54,31 @@ Step(tr, s, ev) ==
        ELSE <<s, "">>
   ELSE \* "end": the task returned - after its fills, or (phase "check") because it was skipped after a recorded failure
        LET mine == IF tr.mode = "serial" THEN c.pos ELSE IF c.phase \in {"fill", "check"} THEN ChunkTasks(tr, c.chunk)[c.pos] ELSE 0 IN
-       IF ev.t # mine \/ c.phase \notin {"fill", "check"} THEN <<s, "C16:event-not-allowed-by-the-pool-model">>
+       IF ev.t # mine \/ c.phase \notin {"fill", "check"} THEN <<s, "X00:event-not-allowed-by-the-pool-model">>
        ELSE IF c.phase = "check" /\ s.failed = <<>> THEN <<s, "C20:sub-cube-skipped-without-an-interrupt">>
        ELSE IF tr.mode = "serial" THEN <<[s EXCEPT !.cur[w] = Idle], "">>
        ELSE IF c.pos < Len(ChunkTasks(tr, c.chunk))
             THEN <<[s EXCEPT !.cur[w].phase = "check", !.cur[w].pos = c.pos + 1], "">>
             ELSE <<[s EXCEPT !.cur[w] = Idle, !.finished = @ \cup {c.chunk}], "">>
 
-\* judgement once all events are consumed
-Final(tr, s) ==
-  LET raisedExpected == s.failed # <<>> IN
-  (IF tr.mode = "pool" /\ tr.outcome # "hung" /\ s.finished # 1..NChunks(tr) THEN {"C16:a-chunk-was-never-finished"} ELSE {})
-  \cup (IF ~ChunkSizeOK(tr) THEN {"C16:chunking-differs-from-the-pool-model"} ELSE {})
-  \cup (IF tr.outcome = "hung" THEN {"C20:evaluation-never-returns-when-the-interrupt-is-not-an-Exception"} ELSE {})
-  \cup (IF raisedExpected /\ tr.outcome \notin {"raised", "hung"} THEN {"C20:interrupt-not-propagated"} ELSE {})
-  \cup (IF ~raisedExpected /\ tr.outcome = "raised" THEN {"C20:raised-without-an-interrupt"} ELSE {})
+\* judgement of what the caller sees (independent of how the work was organised)
+FinalOutputs(tr) ==
+  (IF tr.outcome = "hung" THEN {"C20:evaluation-never-returns-when-the-interrupt-is-not-an-Exception"} ELSE {})
+  \cup (IF tr.faults = <<>> /\ tr.outcome # "returned" THEN {"C16:pooled-evaluation-did-not-return-the-arrays"} ELSE {})
   \cup (IF tr.outcome = "raised" /\ ~tr.tagok THEN {"C20:propagated-exception-is-not-the-callbacks"} ELSE {})
-  \cup (IF tr.mode # "real" /\ ~raisedExpected /\ s.consulted # 1..tr.T THEN {"C20:callback-not-consulted-for-every-sub-cube"} ELSE {})
   \cup (IF tr.outcome = "returned" /\ ~tr.sameasserial THEN {"C16:pooled-output-differs-from-serial"} ELSE {})
   \cup (IF ~tr.secondok THEN {"C20:later-uninterrupted-evaluation-differs-from-fresh"} ELSE {})
+
+\* judgement once all events are consumed. Clauses owned by X00 say that the run was organised differently from the
+\* model (other chunking, other task structure): worth a note, not a violation of any listed property.
+Final(tr, s) ==
+  LET raisedExpected == s.failed # <<>> IN
+  (IF tr.mode = "pool" /\ tr.outcome # "hung" /\ s.finished # 1..NChunks(tr) THEN {"X00:a-chunk-was-never-finished"} ELSE {})
+  \cup (IF ~ChunkSizeOK(tr) THEN {"X00:chunking-differs-from-the-pool-model"} ELSE {})
+  \cup (IF raisedExpected /\ tr.outcome \notin {"raised", "hung"} THEN {"C20:interrupt-not-propagated"} ELSE {})
+  \cup (IF ~raisedExpected /\ tr.outcome = "raised" THEN {"C20:raised-without-an-interrupt"} ELSE {})
+  \cup (IF tr.mode # "real" /\ ~raisedExpected /\ s.consulted # 1..tr.T THEN {"C20:callback-not-consulted-for-every-sub-cube"} ELSE {})
+  \cup FinalOutputs(tr)
 
 TInit == i \in 1..Len(Trace) /\ l = 0 /\ st = St0(Trace[i]) /\ err = ""
 TNext ==
@@ -80,7 +86,9 @@ TNext ==
   \/ /\ err = "" /\ l < Len(tr.events)
      /\ LET r == Step(tr, st, tr.events[l + 1]) IN st' = r[1] /\ err' = r[2]
      /\ l' = l + 1 /\ UNCHANGED i
-     /\ (err' # "" => PrintT(<<"V", tr.tid, err'>>))
+     \* an event the model cannot place ends the replay; what the caller saw is judged all the same
+     /\ (err' # "" => /\ PrintT(<<"V", tr.tid, err'>>)
+                      /\ \A c \in FinalOutputs(tr) : PrintT(<<"V", tr.tid, c>>))
   \/ /\ err = "" /\ l = Len(tr.events) /\ l' = l + 1 /\ UNCHANGED <<i, st>>
      /\ LET cs == Final(tr, st) IN
         /\ err' = IF cs = {} THEN "done" ELSE "final"
